@@ -318,16 +318,21 @@ func c06OperandReturned(c *Ctx, T *ssa.Function, barms map[int64]OpArm) {
 func c06OneBranch(c *Ctx, T *ssa.Function, condH *ssa.Function, d *Dispatcher) {
 	const rule = "C06.one-branch"
 	pos := c.P.Pos(condH.Pos())
-	childOf := func(call *ssa.Call) string {
+	childOfIn := func(or *Origins, call *ssa.Call) string {
+		out := ""
 		for _, a := range call.Call.Args {
-			for _, rt := range plainOrigins.Roots(a) {
+			for _, rt := range or.Roots(a) {
 				if rt.Kind == "param" && len(rt.Path) == 1 && typeName(rt.V.Type()) == "ConditionalExpression" {
-					return rt.Path[0]
+					if out != "" && out != rt.Path[0] {
+						return "one of several children"
+					}
+					out = rt.Path[0]
 				}
 			}
 		}
-		return ""
+		return out
 	}
+	childOf := func(call *ssa.Call) string { return childOfIn(plainOrigins, call) }
 	evals := callsTo(condH, d.Fn)
 	var condEval *ssa.Call
 	for _, e := range evals {
@@ -376,7 +381,8 @@ func c06OneBranch(c *Ctx, T *ssa.Function, condH *ssa.Function, d *Dispatcher) {
 			if !ok || calleeOf(cc) != d.Fn {
 				continue
 			}
-			ch := childOf(cc)
+			// `branch := WhenFalse; if c { branch = WhenTrue }; resolve(branch)`: which child it is depends on the path
+			ch := childOfIn(foldOrigins(r), cc)
 			seen = append(seen, ch)
 			if ch == want {
 				branchEval = cc
